@@ -14,40 +14,29 @@ Open Scope Z_scope.
 
 (* ---- evaluation ---------------------------------------------------------------------- *)
 
-(* For every expression tree: evaluating the tokens [pretty] prints (only the parentheses that
-   standard precedence and left associativity need) gives ordinary arithmetic — * and / bind
-   tighter than + and -, left associativity, parentheses group, / is floor division, decimal and
-   hexadecimal literals denote their values, a reference denotes the earlier constant.  Error
-   outcomes (undefined / non-integer reference) agree as well.  Guard: the evaluation does not
-   divide by zero (see C13_div_zero_refuted). *)
-Theorem C13_parse_eval : forall E e,
-  denote e E <> Err EDivisionByZero -> eval_tokens E (pretty e) = denote e E.
-Proof. exact parse_eval. Qed.
+(* For every expression tree and environment: evaluating the tokens [pretty] prints (only the
+   parentheses that standard precedence and left associativity need) gives ordinary arithmetic —
+   * and / bind tighter than + and -, left associativity, parentheses group, / is floor division,
+   decimal and hexadecimal literals denote their values, a reference denotes the earlier constant.
+   Every error outcome agrees as well: undefined / non-integer reference, and a zero divisor is
+   the diagnosed error EDivisionByZero (the DIVIDE action raises CalculationExpressionError:
+   divide_guard, translated from the source, is true). *)
+Theorem C13_parse_eval : forall E e, eval_tokens E (pretty e) = denote e E.
+Proof. exact parse_eval_all. Qed.
 Print Assumptions C13_parse_eval.
 
-(* the same with the exact behaviour on a zero divisor: the expected diagnosis is replaced by
-   whatever the DIVIDE action does (crashify) *)
+(* the same statement whatever the DIVIDE action does on a zero divisor (crashify is the
+   identity when divide_guard = true); kept because it is what the proof goes through *)
 Theorem C13_parse_eval_exact : forall E e, eval_tokens E (pretty e) = crashify (denote e E).
 Proof. exact eval_pretty. Qed.
 Print Assumptions C13_parse_eval_exact.
 
-(* once the DIVIDE action diagnoses p[3] == 0 (divide_guard, translated from the source) the
-   guard of C13_parse_eval is not needed *)
-Theorem C13_parse_eval_when_guarded : divide_guard = true ->
-  forall E e, eval_tokens E (pretty e) = denote e E.
-Proof. exact (fun G E => parse_eval_when_guarded E G). Qed.
-Print Assumptions C13_parse_eval_when_guarded.
-
-(* on the current tree `1 / 0` is a Python ZeroDivisionError escaping from the semantic action *)
-Theorem C13_div_zero_refuted : exists e E, eval_tokens E (pretty e) <> denote e E.
-Proof. exact div_zero_refuted. Qed.
-Print Assumptions C13_div_zero_refuted.
-
-Theorem C13_div_zero_witness :
+(* 1 / 0 is a diagnosed error, in the specification and in the model of the parser *)
+Theorem C13_div_zero_diagnosed :
   denote (EBin ODivide (EDec 1) (EDec 0)) [] = Err EDivisionByZero /\
-  eval_tokens [] (pretty (EBin ODivide (EDec 1) (EDec 0))) = Err ECrashZeroDivision.
-Proof. exact div_zero_witness. Qed.
-Print Assumptions C13_div_zero_witness.
+  eval_tokens [] (pretty (EBin ODivide (EDec 1) (EDec 0))) = Err EDivisionByZero.
+Proof. exact div_zero_diagnosed. Qed.
+Print Assumptions C13_div_zero_diagnosed.
 
 (* the evaluated value is the one used for array capacities and option values, also after any
    number of further declarations *)
@@ -82,6 +71,13 @@ Theorem C13_int_literal_py : forall z, in_range_py z -> read_int LPy (format_int
 Proof. exact int_literal_py. Qed.
 Print Assumptions C13_int_literal_py.
 
+(* outside the ranges the statement is false: 2^63 written as a decimal literal has no exact
+   meaning as a C constant (gcc: "so large that it is unsigned") and overflows Go's int *)
+Theorem C13_int_literal_out_of_range_refuted :
+  read_int LC (format_int LC (2 ^ 63)) = None /\ read_int LGo (format_int LGo (2 ^ 63)) = None.
+Proof. exact (conj int_literal_c_out_of_range int_literal_go_out_of_range). Qed.
+Print Assumptions C13_int_literal_out_of_range_refuted.
+
 Theorem C13_bool_literal : forall l b, read_bool l (format_bool l b) = Some b.
 Proof. exact bool_literal. Qed.
 Print Assumptions C13_bool_literal.
@@ -113,44 +109,18 @@ Theorem C13_bool_spellings : forall sp,
 Proof. exact bool_spellings_standard. Qed.
 Print Assumptions C13_bool_spellings.
 
-(* emitted verbatim between quotes, a string is read back as itself when it contains none of the
-   characters the target language treats specially (per language, and for all three at once) *)
-Theorem C13_string_literal_c : forall s, safe_string_in LC s = true ->
-  read_string LC (format_str LC s) = RdOk s.
-Proof. exact string_literal_c. Qed.
-Print Assumptions C13_string_literal_c.
+(* the escaping helper of the formatters (table, control-character rule and prefix translated from
+   Formatter.escape_str_value; the three format_str_value call it) is the standard escaping *)
+Theorem C13_escaping_standard : forall l s, format_str l s = format_str_fixed s.
+Proof. exact format_str_is_fixed. Qed.
+Print Assumptions C13_escaping_standard.
 
-Theorem C13_string_literal_go : forall s, safe_string_in LGo s = true ->
-  read_string LGo (format_str LGo s) = RdOk s.
-Proof. exact string_literal_go. Qed.
-Print Assumptions C13_string_literal_go.
-
-Theorem C13_string_literal_py : forall s, safe_string_in LPy s = true ->
-  read_string LPy (format_str LPy s) = RdOk s.
-Proof. exact string_literal_py. Qed.
-Print Assumptions C13_string_literal_py.
-
-Theorem C13_string_literal_safe : forall l s, safe_string s = true ->
+(* every string constant is emitted into C, Go and Python as a literal that the language reads
+   back as exactly the declared value — for ALL strings (codes >= 0; bytes >= 128 pass through) *)
+Theorem C13_string_literal : forall l s, Forall (fun c => 0 <= c) s ->
   read_string l (format_str l s) = RdOk s.
-Proof. exact string_literal_all. Qed.
-Print Assumptions C13_string_literal_safe.
-
-(* the unguarded statement is FALSE on the current tree: for each language and each excluded
-   character there is a string of that character and harmless ones that the language rejects or
-   reads as a different string *)
-Theorem C13_string_literal_refuted : forall l c, In c (unsafe_chars l) ->
-  exists s, (forall x, In x s -> x = c \/ safe_char l x = true) /\
-            (read_string l (format_str l s) = RdErr \/
-             exists s', read_string l (format_str l s) = RdOk s' /\ s' <> s).
-Proof. exact string_literal_refuted. Qed.
-Print Assumptions C13_string_literal_refuted.
-
-(* the proposed fix (escape backslash, quote, \n \r \t; other control characters as three octal
-   digits) is read back as the value by all three languages, for every string *)
-Theorem C13_string_literal_fixed : forall l s, Forall (fun c => 0 <= c) s ->
-  read_string l (format_str_fixed s) = RdOk s.
-Proof. exact string_literal_fixed. Qed.
-Print Assumptions C13_string_literal_fixed.
+Proof. exact string_literal. Qed.
+Print Assumptions C13_string_literal.
 
 (* ---- non-vacuity ------------------------------------------------------------------------ *)
 
@@ -183,14 +153,23 @@ Example C13_literals_nonvacuous :
   read_int LC (format_int LC (- (2 ^ 63 - 1))) = Some (- (2 ^ 63 - 1)) /\
   read_int LC (format_int LC (2 ^ 63)) = None /\
   read_int LPy (format_int LPy (- 10 ^ 50)) = Some (- 10 ^ 50) /\
-  safe_string [104; 105; 9; 39; 195; 169] = true /\
   read_string LPy (format_str LPy [104; 105; 9; 39; 195; 169]) = RdOk [104; 105; 9; 39; 195; 169].
 Proof. vm_compute. repeat split; reflexivity. Qed.
 
-Example C13_refuted_examples :
-  read_string LPy (format_str LPy [97; 92; 98]) = RdOk [97; 8] /\      (* a\b is read as a, backspace *)
-  read_string LC (format_str LC [97; 92; 10; 98]) = RdOk [97; 98] /\   (* backslash-newline vanishes in C *)
-  read_string LC (format_str LC [34; 34]) = RdOk [] /\                 (* two quotes: two empty C literals *)
-  read_string LGo (format_str LGo [97; 10; 98]) = RdErr /\
-  read_string LPy (format_str LPy [97; 13; 98]) = RdErr.
+Example C13_string_examples :
+  let v := [97; 34; 98; 92; 99; 10; 13; 9; 0; 127; 195; 169] in
+  format_str LC v = [34; 97; 92; 34; 98; 92; 92; 99; 92; 110; 92; 114; 92; 116; 92; 48; 48; 48;
+                     92; 49; 55; 55; 195; 169; 34] /\
+  read_string LC (format_str LC v) = RdOk v /\ read_string LGo (format_str LGo v) = RdOk v /\
+  read_string LPy (format_str LPy v) = RdOk v.
+Proof. vm_compute. repeat split; reflexivity. Qed.
+
+(* why the escaping is needed: the same values written verbatim between quotes (what the
+   formatters did before commit 2f32229) are rejected or read as other strings *)
+Example C13_verbatim_would_fail :
+  read_string LPy (34 :: [97; 92; 98] ++ [34]) = RdOk [97; 8] /\
+  read_string LC (34 :: [97; 92; 10; 98] ++ [34]) = RdOk [97; 98] /\
+  read_string LC (34 :: [34; 34] ++ [34]) = RdOk [] /\
+  read_string LGo (34 :: [97; 10; 98] ++ [34]) = RdErr /\
+  read_string LPy (34 :: [97; 13; 98] ++ [34]) = RdErr.
 Proof. vm_compute. repeat split; reflexivity. Qed.
